@@ -185,13 +185,24 @@ impl UdpHeader {
         destination: [u8; 16],
         payload: &[u8],
     ) -> u16 {
+        // The upper-layer packet length of the pseudo header is a 32 bit
+        // value (RFC 8200, 8.1). It is the value of the length field, except
+        // if the UDP header & payload no longer fit into the 16 bit length
+        // field (jumbograms, length field 0): then it is the real length
+        // (RFC 2675, 4).
+        let real_len = UdpHeader::LEN + payload.len();
+        let pseudo_len: u32 = if real_len > usize::from(u16::MAX) {
+            real_len as u32
+        } else {
+            u32::from(self.length)
+        };
         self.calc_checksum_post_ip(
             //pseudo header
             checksum::Sum16BitWords::new()
                 .add_16bytes(source)
                 .add_16bytes(destination)
-                .add_2bytes([0, ip_number::UDP.0])
-                .add_2bytes(self.length.to_be_bytes()),
+                .add_4bytes(pseudo_len.to_be_bytes())
+                .add_2bytes([0, ip_number::UDP.0]),
             payload,
         )
     }
